@@ -187,13 +187,25 @@ impl Value {
         }
     }
 
-    pub fn retain_list_origins_for_assignment(old_value: &dyn RTObject, new_value: &dyn RTObject) {
+    /// When an empty list is assigned to a variable that held a list, the new
+    /// value remembers the origins of the old one. The value being assigned is
+    /// often an object of the story content itself (the literal `()`, or the
+    /// default value of another variable), shared by every place that refers
+    /// to it, so it is not modified: a copy carrying the origin names is
+    /// returned and the caller stores that instead.
+    pub fn retain_list_origins_for_assignment(
+        old_value: &dyn RTObject,
+        new_value: &dyn RTObject,
+    ) -> Option<Value> {
         if let Some(old_list) = Self::get_value::<&InkList>(old_value)
             && let Some(new_list) = Self::get_value::<&InkList>(new_value)
             && new_list.items.is_empty()
         {
-            new_list.set_initial_origin_names(old_list.get_origin_names());
+            let retained = new_list.clone();
+            retained.set_initial_origin_names(old_list.get_origin_names());
+            return Some(Value::new::<InkList>(retained));
         }
+        None
     }
 
     pub fn get_cast_ordinal(&self) -> u8 {
